@@ -3,7 +3,9 @@
    validation walk reports an error or a rule raises, the response has `data: null`, a non-empty
    `errors`, and NO user code is invoked (the executor is not reached); the uniqueness rules are
    complete (a repeated operation / fragment / variable / argument / directive / input-field name
-   is always reported, wherever the list sits).
+   is always reported, wherever the list sits); the fragment-cycle rule reports nothing EXACTLY for
+   acyclic graphs (both directions, for every graph), a cyclic graph puts the walk in a refusing
+   state and no later rule undoes a refusal.
    PARTIAL: completeness of every other rule at every site (`violates a supported rule ->
    impl_validate reports`) is decided per rewritten document by the check (specification verdict
    inside Coq vs the real engine) and the implementation model is tied to the engine by comparing
@@ -47,6 +49,32 @@ Theorem C07_repeated_input_field_reported path (fields : list (string * lit)) :
   uniq_errors "input-object-field-uniqueness" fst (fun kv => lit_loc (snd kv)) path fields <> [].
 Proof. intros H E. apply input_field_uniqueness_rule in E. congruence. Qed.
 
+(* a cyclic fragment graph is always reported: the rule (with distinct fragment names -- repeated names
+   are reported by their own rule) answers Some [] exactly for acyclic graphs, whatever the fuel;
+   emitting its verdict puts the walk in a refusing state, and no later rule can undo that *)
+Theorem C07_cycle_rule_exact frs :
+  NoDup (map fr_name frs) -> (cycle_rule frs = Some [] <-> acyclic frs).
+Proof. exact (cycle_rule_exact frs). Qed.
+
+Theorem C07_fragment_cycle_refuses frs st :
+  NoDup (map fr_name frs) -> ~ acyclic frs -> aborted st = false ->
+  refusing (emit true (cycle_rule frs) st).
+Proof. exact (cycle_emit_refuses frs st). Qed.
+
+Theorem C07_refusal_is_never_undone b r st : refusing st -> refusing (emit b r st).
+Proof. exact (emit_keeps b r st). Qed.
+
+(* non-vacuity: a cycle closed through a nested selection *)
+Definition FR (n : string) (sels : list selection) : fragment :=
+  {| fr_name := n; fr_type := "Query"; fr_dirs := []; fr_sels := sels; fr_loc := (1, 1)%Z |}.
+Definition cyc : list fragment :=
+  [FR "A" [SField (1, 1)%Z None "x" [] [] [SSpread (1, 1)%Z "B" []]]; FR "B" [SInline (1, 1)%Z None [] [SSpread (1, 1)%Z "A" []]]].
+Example C07_cycle_reported : NoDup (map fr_name cyc) /\ cycle_rule cyc <> Some [].
+Proof. split; [repeat constructor; cbn; intuition discriminate|vm_compute; discriminate]. Qed.
+
+Print Assumptions C07_cycle_rule_exact.
+Print Assumptions C07_fragment_cycle_refuses.
+Print Assumptions C07_refusal_is_never_undone.
 Print Assumptions C07_refused_runs_nothing.
 Print Assumptions C07_repeated_operation_name_reported.
 Print Assumptions C07_repeated_fragment_name_reported.
